@@ -245,7 +245,7 @@ func (v *aBasic) Bin() (b []byte) {
 
 	case *I64:
 		b = make([]byte, 8)
-		i, _ := strconv.ParseInt(v.Name(), 0, 6)
+		i, _ := strconv.ParseInt(v.Name(), 0, 64)
 		si := uint64(int64(i))
 		b[0] = byte(si & 0xFF)
 		b[1] = byte((si >> 8) & 0xFF)
